@@ -75,4 +75,31 @@ theorem LinkH_error_map (f : Err → Except Err Val) (st : Nat → Option Unit) 
   | fatal e => hm_simp [Gen.error_map_on_next, idxStep]
 
 
+/-- **the error router** (`create_error_router()`'s operator, `on_next` generated from rxsci/error/router.py): while the errors
+observable is subscribed, a mux error leaves the main stream — which then carries exactly what `error.ignore` lets through
+(`idxStep ignoreOp`) — and its error is handed to the dead-letter observer, in order; every other event is forwarded untouched and
+nothing else reaches the dead-letter observer. While nobody is subscribed to the errors observable the operator is the identity. -/
+theorem LinkH_error_router (st : Nat → Option Unit) (s : HSt Val) (ev : Ev Val)
+    (hlive : ∀ k, ((∃ v, ev = .next k v) ∨ (∃ e, ev = .err k e)) → st k.idx ≠ none) :
+    runS (Gen.error_router_on_next true ev) s
+        = (.ok (), { s with out := s.out ++ (idxStep (ignoreOp (α := Val)) st ev).2,
+                            outer := s.outer ++ (match ev with | .err k e => [Ev.err k e] | _ => []) })
+    ∧ runS (Gen.error_router_on_next false ev) s = (.ok (), { s with out := s.out ++ [ev] }) := by
+  cases ev with
+  | create k => constructor <;> simp [Gen.error_router_on_next, idxStep, ignoreOp, runS_emit]
+  | next k v =>
+    cases h : st k.idx with
+    | none => exact absurd h (hlive k (Or.inl ⟨v, rfl⟩))
+    | some u => constructor <;> simp [Gen.error_router_on_next, idxStep, ignoreOp, h, liftOut, runS_emit]
+  | done k => cases h : st k.idx <;> constructor <;> simp [Gen.error_router_on_next, idxStep, ignoreOp, h, liftOut, runS_emit]
+  | err k e =>
+    cases h : st k.idx with
+    | none => exact absurd h (hlive k (Or.inr ⟨e, rfl⟩))
+    | some u =>
+      constructor
+      · simp [Gen.error_router_on_next, idxStep, ignoreOp, h, liftOut, runS, HM.emitOuter]
+        rfl
+      · simp [Gen.error_router_on_next, runS_emit]
+  | fatal e => constructor <;> simp [Gen.error_router_on_next, idxStep, runS_emit]
+
 end Rx
